@@ -170,7 +170,7 @@ def stream_steps(rng, n):
             # brute_force_steps_iter never terminates on a bound that stops stepping
             if "never" in sa or "agg 0" in sa or "sli 0" in sa:
                 sa = "spo 7 9"
-            ops.append(f"bsteps {sa} {min(H, 200)}")
+            ops.append(f"{'bsteps' if rng.random() < 0.6 else 'dsteps'} {sa} {min(H, 200)}")
         elif r < 0.9:
             rb = gen.gen_rb(rng, depth=wchoice(rng, [(2, 0), (3, 1), (1, 2)]))
             ops.append(f"rsteps {gen.rb_str(rb)} {H}")
@@ -216,8 +216,11 @@ def stream_wcet(rng, n):
             ops.append(f"cojs {s} {lo} {lo + rng.randint(0, 30)}")
         elif r < 0.7:
             ops.append(f"items {s} {rng.randint(0, 25)}")
-        elif r < 0.85:
+        elif r < 0.8:
             ops.append(f"least {s} {rng.randint(0, 12)}")
+        elif r < 0.87:
+            # the trait's default least_wcet / cost_of_jobs
+            ops.append(f"dleast {s} {rng.randint(0, 14)}")
         else:
             k = rng.random()
             if k < 0.5:
@@ -236,8 +239,11 @@ def stream_demand(rng, n):
         s = gen.rb_str(rb)
         d = wchoice(rng, [(4, rng.randint(0, 60)), (2, rng.randint(60, 400))])
         r = rng.random()
-        if r < 0.25:
+        if r < 0.2:
             ops.append(f"need {s} {d}")
+        elif r < 0.27:
+            # the trait's default service_needed
+            ops.append(f"dneed {s} {min(d, 150)}")
         elif r < 0.4:
             ops.append(f"needs {s} {d} {d + rng.randint(0, 40)}")
         elif r < 0.55:
